@@ -23,6 +23,7 @@ import (
 	"strconv"
 	"strings"
 	"sync"
+	"time"
 
 	"verif/vf"
 )
@@ -46,7 +47,8 @@ type symptom struct {
 var stage1Priority = []string{"tool-error", "field-list-mismatch", "size-mismatch", "tiling-gap", "tiling-overlap", "entry-inconsistent",
 	"field-start-mismatch", "field-size-mismatch", "field-align-mismatch"}
 
-var stage2Priority = []string{"error", "not-permutation", "claims-smaller-than-compiler", "claims-larger-than-compiler", "field-mismatch"}
+var stage2Priority = []string{"error", "not-permutation", "claims-smaller-than-compiler", "claims-larger-than-compiler", "claimed-entries-do-not-tile",
+	"field-size-mismatch", "field-align-mismatch", "field-start-mismatch"}
 
 func primary(syms []symptom, prio []string) string {
 	for _, p := range prio {
@@ -173,7 +175,7 @@ func stage2(out []Entry, reTruth *Truth, orig *Truth) []symptom {
 	fieldBad := false
 	for i, e := range out {
 		if e.Start != pos || e.End != e.Start+e.Size {
-			add("field-mismatch", "claimed entries do not tile: entry %d (%s) %d-%d size %d after %d", i, e.Name, e.Start, e.End, e.Size, pos)
+			add("claimed-entries-do-not-tile", "claimed entries do not tile: entry %d (%s) %d-%d size %d after %d", i, e.Name, e.Start, e.End, e.Size, pos)
 			fieldBad = true
 		}
 		pos = e.End
@@ -188,10 +190,17 @@ func stage2(out []Entry, reTruth *Truth, orig *Truth) []symptom {
 	}
 	for k, e := range np {
 		l := reTruth.Top[k]
-		if e.Start != l.Off || e.Align != l.Align || (e.Size != l.Size && !(l.PadOK && l.Size == 0 && e.Size == 1)) {
-			if !fieldBad {
-				add("field-mismatch", "%s claimed %d-%d size %d align %d, compiler: offset %d size %d align %d", e.Name, e.Start, e.End, e.Size, e.Align, l.Off, l.Size, l.Align)
-			}
+		if fieldBad {
+			break
+		}
+		if e.Size != l.Size && !(l.PadOK && l.Size == 0 && e.Size == 1) {
+			add("field-size-mismatch", "%s claimed size %d, compiler Sizeof = %d", e.Name, e.Size, l.Size)
+		}
+		if e.Align != l.Align {
+			add("field-align-mismatch", "%s claimed align %d, compiler Alignof = %d", e.Name, e.Align, l.Align)
+		}
+		if e.Start != l.Off {
+			add("field-start-mismatch", "%s claimed start %d, compiler Offsetof in the reordered struct = %d", e.Name, e.Start, l.Off)
 		}
 	}
 	if reTruth.Size > orig.Size {
@@ -217,6 +226,9 @@ func (c *ctx) run(dir string, stdin []byte, bin string, args ...string) (stdout,
 	cmd := exec.Command("timeout", append([]string{"-s", "QUIT", "300", bin}, args...)...)
 	cmd.Dir = dir
 	cmd.Env = vf.GoEnv()
+	if bin == c.layout || bin == c.optim {
+		cmd.Env = append(cmd.Env, "GOMAXPROCS=2") // also inherited by the `go list` child: less thread churn per call
+	}
 	if stdin != nil {
 		cmd.Stdin = bytes.NewReader(stdin)
 	}
@@ -446,6 +458,12 @@ func (c *ctx) buildAndMeasure(rel string, decls string, ts []oracleType) (map[st
 	return parseOracle(so)
 }
 
+func debugf(format string, a ...any) {
+	if os.Getenv("VERIF_DEBUG") != "" {
+		fmt.Fprintf(os.Stderr, "[c19 %s] "+format+"\n", append([]any{time.Now().Format("15:04:05")}, a...)...)
+	}
+}
+
 func firstLines(s string, n int) string {
 	ls := strings.Split(s, "\n")
 	if len(ls) > n {
@@ -543,8 +561,17 @@ func canon(t *Typ) string {
 	return t.src()
 }
 
+// workers is the number of concurrent child processes (VERIF_WORKERS, default
+// one per CPU). It does not influence any verdict.
+func workers() int {
+	if v, err := strconv.Atoi(os.Getenv("VERIF_WORKERS")); err == nil && v > 0 {
+		return v
+	}
+	return runtime.NumCPU()
+}
+
 func Run(r *vf.Run) {
-	c := &ctx{r: r, sem: make(chan struct{}, runtime.NumCPU())}
+	c := &ctx{r: r, sem: make(chan struct{}, workers())}
 	c.layout = r.BuildBin("structlayout", "honnef.co/go/tools/cmd/structlayout", false)
 	c.optim = r.BuildBin("structlayout-optimize", "honnef.co/go/tools/cmd/structlayout-optimize", false)
 	c.mod = filepath.Join(r.Scratch(), "mod")
@@ -553,7 +580,10 @@ func Run(r *vf.Run) {
 	r.Assume("target architecture is the host, linux/amd64 (386/arm binaries cannot be executed in this VM)")
 	r.Assume("the compiler's layout is observed through reflect (Offset/Size/FieldAlign) of the compiled program, cross-checked in the same program against unsafe.Offsetof/Sizeof/Alignof for every field reachable without a blank selector")
 
-	total := r.Pick(300, 8000)
+	total := r.Pick(300, 20000)
+	if v, err := strconv.Atoi(os.Getenv("VERIF_N")); err == nil && v > 0 {
+		total = v // development aid; recorded in evidence as types_generated
+	}
 	batch := 400
 	var items []*item
 	discarded := 0
@@ -582,7 +612,16 @@ func Run(r *vf.Run) {
 			ots = append(ots, oracleType{name, it.Model})
 		}
 		rel := fmt.Sprintf("b%d", start/batch)
-		truth, err := c.buildAndMeasure(rel, decls.String(), ots)
+		debugf("batch %s: %d types generated", rel, len(its))
+		// The package the tools load has no imports (cheap `go list`); the
+		// oracle program lives in a sibling directory with the same types.go.
+		os.MkdirAll(filepath.Join(c.mod, rel), 0o755)
+		os.WriteFile(filepath.Join(c.mod, rel, "types.go"), []byte("package main\n\n"+decls.String()+"\nfunc main() {}\n"), 0o644)
+		truth, err := c.buildAndMeasure(rel+"x", decls.String(), ots)
+		if os.Getenv("VERIF_KEEP") == "" {
+			os.RemoveAll(filepath.Join(c.mod, rel+"x"))
+		}
+		debugf("batch %s: oracle done", rel)
 		if err != nil {
 			r.Inconclusive("oracle for batch %s could not be produced: %v", rel, err)
 			discarded += len(its)
@@ -613,6 +652,7 @@ func Run(r *vf.Run) {
 			}(it)
 		}
 		wg.Wait()
+		debugf("batch %s: tools done", rel)
 		// reordered structs: measure with the compiler
 		var odecls strings.Builder
 		var oots []oracleType
@@ -653,6 +693,7 @@ func Run(r *vf.Run) {
 		}
 		if os.Getenv("VERIF_KEEP") == "" {
 			os.RemoveAll(filepath.Join(c.mod, rel+"o"))
+			os.RemoveAll(filepath.Join(c.mod, rel))
 		}
 		// collect
 		for _, it := range its {
@@ -699,7 +740,9 @@ func Run(r *vf.Run) {
 		}
 	}
 
+	debugf("main loop done: %d items, %d raw violations", len(items), len(viols))
 	c.classify(viols)
+	debugf("classified")
 	c.report(viols)
 
 	r.Set("types_generated", total)
@@ -712,7 +755,7 @@ func Run(r *vf.Run) {
 		it := items[0]
 		r.Sample(map[string]any{"type": it.Decl, "compiler": it.Truth, "structlayout": it.Entries}, 8)
 	}
-	r.Finish(evaluations, len(distinctNT), r.Pick(120, 3000),
+	r.Finish(evaluations, len(distinctNT), total*2/5,
 		"distinct (by structure) generated struct types that contain padding, a zero-size field or a nested struct, each measured by a compiled program and laid out by the real structlayout CLI")
 }
 
@@ -740,6 +783,20 @@ func (c *ctx) classify(viols []*rawViol) {
 		return a.symKey() < b.symKey()
 	})
 	var classes []*class
+	// Classes already listed as known findings need no new representative:
+	// violations that contain the listed feature are attributed to them.
+	if b, err := os.ReadFile(filepath.Join(vf.Root, "known_findings.json")); err == nil {
+		var kf struct {
+			Findings []vf.Finding `json:"findings"`
+		}
+		if json.Unmarshal(b, &kf) == nil {
+			for _, f := range kf.Findings {
+				if i := strings.LastIndex(f.Key, ":"); f.Property == "C19" && f.Status == "known" && i > 0 {
+					classes = append(classes, &class{sym: f.Key[:i], feature: f.Key[i+1:]})
+				}
+			}
+		}
+	}
 	explain := func(v *rawViol) bool {
 		fs := features(v.it.T)
 		for _, cl := range classes {
@@ -750,7 +807,7 @@ func (c *ctx) classify(viols []*rawViol) {
 		}
 		return false
 	}
-	for wave := 0; wave < 4; wave++ {
+	for wave := 0; wave < 3; wave++ {
 		// smallest unexplained violation of every symptom
 		pick := map[string]*rawViol{}
 		var order []string
@@ -901,46 +958,47 @@ func (c *ctx) shrink(v *rawViol, id int) {
 			os.RemoveAll(filepath.Join(c.mod, base))
 		}
 	}()
-	for round := 0; round < 40; round++ {
-		cands := reductions(cur)
+	budget := 160 // candidate evaluations per representative
+	for round := 0; round < 40 && budget > 0; round++ {
 		var ok []*Typ
-		for _, cd := range cands {
+		for _, cd := range reductions(cur) {
 			if typeChecks(declSource("S", cd)) == nil {
 				ok = append(ok, cd)
 			}
-			if len(ok) >= 48 {
-				break
-			}
 		}
-		if len(ok) == 0 {
-			break
-		}
-		res := make([]*item, len(ok))
-		var wg sync.WaitGroup
-		for j, cd := range ok {
-			rel := fmt.Sprintf("%s/r%d/c%d", base, round, j)
-			dir := filepath.Join(c.mod, rel)
-			os.MkdirAll(dir, 0o755)
-			os.WriteFile(filepath.Join(dir, "types.go"), []byte("package main\n\n"+declSource("S", cd)+"\nfunc main() {}\n"), 0o644)
-			wg.Add(1)
-			go func(j int, cd *Typ, rel string) {
-				defer wg.Done()
-				res[j] = c.evalModel(rel, "S", cd)
-			}(j, cd, rel)
-		}
-		wg.Wait()
-		c.r.Add("shrink_candidates_evaluated", len(ok))
 		next := -1
-		for j := range ok {
-			if v.shows(res[j]) {
-				next = j
-				break
+		var nextItem *item
+		// candidates are tried in chunks, most aggressive reductions first
+		for lo := 0; lo < len(ok) && next < 0 && budget > 0; lo += 8 {
+			hi := min(lo+8, len(ok))
+			res := make([]*item, hi-lo)
+			var wg sync.WaitGroup
+			for j := lo; j < hi; j++ {
+				rel := fmt.Sprintf("%s/r%d/c%d", base, round, j)
+				dir := filepath.Join(c.mod, rel)
+				os.MkdirAll(dir, 0o755)
+				os.WriteFile(filepath.Join(dir, "types.go"), []byte("package main\n\n"+declSource("S", ok[j])+"\nfunc main() {}\n"), 0o644)
+				wg.Add(1)
+				go func(j int, rel string) {
+					defer wg.Done()
+					res[j-lo] = c.evalModel(rel, "S", ok[j])
+				}(j, rel)
+			}
+			wg.Wait()
+			budget -= hi - lo
+			c.r.Add("shrink_candidates_evaluated", hi-lo)
+			for j := lo; j < hi; j++ {
+				if v.shows(res[j-lo]) {
+					next, nextItem = j, res[j-lo]
+					break
+				}
 			}
 		}
 		if next < 0 {
 			break
 		}
-		cur, curItem = ok[next], res[next]
+		cur, curItem = ok[next], nextItem
+		debugf("shrink %d (%s) round %d -> %s", id, v.symKey(), round, strings.ReplaceAll(curItem.Decl, "\n", "; "))
 	}
 	if curItem == nil {
 		return
